@@ -32,7 +32,38 @@ structure DSt where
   rm : Ref      -- reference following the model
   ri : Ref      -- reference following the implementation (same ops: identical, kept separate for clarity)
 
+/-- apply a list of ops, concatenating the writes; the oracle is evaluated on the combined observation -/
+def stepMany (d : DSt) (ops : List Op) (impl : String) : DSt × Reply :=
+  let (st', w) := ops.foldl (fun (acc : St × List String) op =>
+    let (s', w') := Model.C10.step acc.1 op; (s', acc.2 ++ w')) (d.st, [])
+  let mo : Obs := ⟨w, st'.q⟩
+  let refAll (r : Ref) : Ref × List String := ops.foldl (fun (acc : Ref × List String) op =>
+    let (r', w') := refStep acc.1 op; (r', acc.2 ++ w')) (r, [])
+  let judge (r : Ref) (o : Obs) : Bool × Ref :=
+    let (r', rw) := refAll r
+    (decide (o.writes = rw) && decide (o.held.map (·.stz) = r'.held) && idsIncreasing (o.held.map (·.id)), r')
+  let (okM, rm') := judge d.rm mo
+  let (okI, ri') := match parseObs impl with
+    | some io => judge d.ri io
+    | none => (false, (refAll d.ri).1)
+  (⟨st', rm', ri'⟩, .det (showObs mo) impl okM okI)
+
+/-- `race a b`: two goroutines call SendRaw concurrently. The scheduler decides which one stores-and-writes first;
+the model follows the order seen on the wire - in that order the queue must hold them too. -/
+def stepRace (d : DSt) (a b : String) (impl : String) : DSt × Reply :=
+  let first := match parseObs impl with
+    | some io => io.writes.head?
+    | none => none
+  if first == some b then stepMany d [.sendRaw b, .sendRaw a] impl
+  else stepMany d [.sendRaw a, .sendRaw b] impl
+
 def step (d : DSt) (fields : List String) (impl : String) : DSt × Reply :=
+  match fields with
+  | ["race", a, b] =>
+    match decStr a, decStr b with
+    | some a, some b => stepRace d a b impl
+    | _, _ => (d, .bad)
+  | _ =>
   match parseOp fields with
   | none => (d, .bad)
   | some op =>
